@@ -4,8 +4,8 @@ from props import common
 
 ID = "C13"
 LEVEL = "proof"
-SIDECARS = ["contracts.fusion"]
-TARGETS = ["Fusion.__init__", "Fusion.add_einsum", "Fusion.add_component", "Fusion.get_blocks", "Fusion.get_components"]
+SIDECARS = ["contracts.hardware", "contracts.fusion"]
+TARGETS = ["Hardware.get_components", "Fusion.__init__", "Fusion.add_einsum", "Fusion.add_component", "Fusion.get_blocks", "Fusion.get_components"]
 EXPLANATION = (
     "Representation invariant + per-call postcondition of the real Fusion.add_einsum, proved for every history: the "
     "new Einsum is appended to the open block or opens a new last block (all earlier blocks untouched), and it joins "
